@@ -94,6 +94,8 @@ impl AssemblyWindow {
 
                 if self.alloc + alloc_size > self.max_alloc {
                     // Never should have come here!
+                    #[cfg(feature = "verif")]
+                    crate::verif::count_dud();
                     self.window[idx] = WindowEntry::Closed(0);
 
                     return Some(Packet {
@@ -197,6 +199,7 @@ impl AssemblyWindow {
         self.window[idx] = WindowEntry::Open;
     }
 }
+
 
 #[cfg(test)]
 mod tests {
